@@ -215,7 +215,11 @@ func plans(id, tier string) (Plan, bool) {
 			if sh == 3 {
 				ml, shards = pick(3, 4), 16
 			}
-			jobs = append(jobs, Job{Pkg: pkgV2, Harness: "c10_total", Params: fmt.Sprintf("shape=%d;maxlen=%d", sh, ml), Shards: shards, MaxProcs: 2})
+			params := fmt.Sprintf("shape=%d;maxlen=%d", sh, ml)
+			if sh == 3 && th {
+				params += ";ts=three" // all strings of four symbols at three thresholds; three symbols at all nine below
+			}
+			jobs = append(jobs, Job{Pkg: pkgV2, Harness: "c10_total", Params: params, Shards: shards, MaxProcs: 2})
 		}
 		jobs = append(jobs, Job{Pkg: pkgV2, Harness: "c10_total", Params: fmt.Sprintf("shape=4;maxlen=%d", pick(1, 2)), Shards: pick(4, 16), MaxProcs: 2})
 		if th {
@@ -243,12 +247,18 @@ func plans(id, tier string) (Plan, bool) {
 			{Pkg: pkgExtCLI, Harness: "c12_default", Shards: pick(8, 16)},
 		}}, true
 	case "C13":
-		return Plan{Level: "exploration", Jobs: []Job{
-			{Pkg: pkgSC, Harness: "c13_occurrence", Instr: "v1", Shards: 16},
+		var deep []Job
+		if th {
+			// pairs of values of up to three tokens with contexts of one token (the job below: pairs of
+			// up to two tokens with contexts of up to two)
+			deep = []Job{{Pkg: pkgSC, Harness: "c13_occurrence", Instr: "v1", Params: "pairtok=3;maxctx=1;maxtok=3", Shards: 16}}
+		}
+		return Plan{Level: "exploration", Jobs: append(deep, []Job{
+			{Pkg: pkgSC, Harness: "c13_occurrence", Instr: "v1", Params: map[bool]string{false: "", true: "pairtok=2;maxctx=2"}[th], Shards: 16},
 			{Pkg: pkgSC, Harness: "c13_addvalue", Instr: "v1", Shards: pick(8, 16)},
 			{Pkg: pkgSC, Harness: "c13_history", Instr: "v1", Shards: pick(4, 16)},
 			{Pkg: pkgSC, Harness: "c13_many", Instr: "v1", Shards: pick(8, 16)},
-		}}, true
+		}...)}, true
 	case "C14":
 		var jobs []Job
 		for _, sc := range map[bool][]int{false: {0, 1, 2, 3, 4, 7, 8, 9, 10}, true: {0, 1, 2, 3, 4, 5, 6, 7, 8, 9, 10, 11}}[th] {
